@@ -548,7 +548,8 @@ def stream_session(ctx, cap):
                 ans = run_query(script, *qq)
                 exp = fresh_answer(qq)
                 internal = internal or ans[0] == 'raised' or exp[0] == 'raised'
-                case = {'label': label, 'source': src, 'session': [list(x) for x in sess], 'at': at}
+                case = {'label': label, 'source': src, 'session': [list(x) for x in sess], 'at': at,
+                        'query': qq[0], 'line': qq[1], 'column': qq[2]}
                 bad = state_defaults(script)
                 if bad:
                     # the mechanism the theorem query_boundary_inv is about no longer holds on the real
